@@ -201,6 +201,14 @@ def run(ctx):
                     dist["reconstructed_base_mismatch"] += 1
                     ctx.tie_ok = False
                     ctx.broken.append(f"re-built optimiser input does not reproduce the run's optimum on {where}")
+                    # the same NUMBERS (captured from the run, handed back as plain float series) give another optimum than the
+                    # run itself: the result depends on something other than the values of the supplies (dtype, object
+                    # identity, hidden state) - so a common scale or a harmless re-encoding changes percent fed
+                    ctx.violation("C12:same-numbers-different-optimum@rebuilt-input",
+                                  f"the run reports {real_rec['percent_fed_from_model']} but the optimiser given the same input values "
+                                  f"as float series reports {base_opt} on {where}",
+                                  {"kind": "counterexample", "base": base_spec, "where": where, "run_optimum": real_rec["percent_fed_from_model"],
+                                   "rebuilt_optimum": base_opt, "rerun": where})
             if okb and "rows" in r and len(file_specs) < (6 if ctx.quick else 60):
                 file_specs.append((lpcase.instance_defs("x", {"lp_in": r["lp_in"] | {"ty": spec["ty"]}, "rows": r["rows"]}),
                                    [f"compare_lp {fq(TOL)} {fq(lpcase.scale_of(r['lp_in']))} x_in {lpcase.coq_ty(spec['ty'])} x_rows"]))
